@@ -6,7 +6,8 @@
 (*   src  what the schema supplies: "name" | "enum" | "facet" | "doc" |     *)
 (*        "uri" | "address" | "action" | "opname"                           *)
 (*   ctx  the lexical context of the emitted text: "ident" | "str" |        *)
-(*        "doc_comment" | "block_comment" | "line_comment" | "code"         *)
+(*        "fmt_str" | "doc_comment" | "block_comment" | "line_comment" |    *)
+(*        "code"                                                            *)
 (*   esc  what the emitter does to the text first: "none" | "rust_str"      *)
 (*        (escaped as a Rust string literal) | "lines" (one comment line    *)
 (*        per line of text) | "one_line" (line breaks removed) | "number"   *)
@@ -52,6 +53,8 @@ Sites == IF "D25" \in Dev THEN {AsBuilt(s) : s \in SitesRepaired} ELSE SitesRepa
 \* does a payload of class c stay data at site s ?
 Safe(c, s) ==
   CASE s.ctx = "str" -> (s.esc = "rust_str" \/ c \in {"plain", "braces", "lf", "comment_end", "comment_start", "nonascii"})
+    \* the format string of a formatting macro (debug!, format!, write!): braces are placeholders and captured names
+    [] s.ctx = "fmt_str" -> (s.esc = "rust_fmt" \/ (s.esc = "rust_str" /\ c # "braces"))
     [] s.ctx = "doc_comment" -> (s.esc = "lines" \/ c # "cr")          \* a bare CR is not allowed in a doc comment
     [] s.ctx = "line_comment" -> (s.esc = "one_line" \/ c \notin {"lf", "cr"})
     [] s.ctx = "block_comment" -> c \notin {"comment_end", "comment_start"}
